@@ -952,7 +952,12 @@ class Interp:
             if isinstance(v, ClassV):
                 v = ExcV(v.name, [])
             if isinstance(v, RefV):
-                v = self.theory.raise_opaque(s, fr, v)
+                out = []
+                for cond, exc in self.theory.raise_opaque(s, fr, v):
+                    for s2, b in self.branch(s, cond, "raise-kind"):
+                        if b:
+                            out.append((s2, Exit(Exit.RAISE, exc)))
+                return out
             if not isinstance(v, ExcV):
                 raise Unsupported("raise of non-exception value")
             return [(s, Exit(Exit.RAISE, v))]
